@@ -6,6 +6,7 @@ from bluesky import RunEngine
 from bluesky.utils import IllegalMessageSequence, Msg
 
 ROOT = os.path.dirname(os.path.dirname(os.path.abspath(__file__)))
+ABSENT = "<absent>"
 
 
 def _users(info):
@@ -110,13 +111,13 @@ def scenario(model, info, art):
         for key in case.get("pre_open", []):
             yield Msg("open_run", run=key)                      # the run that is still open when the case starts
         docs.clear()
-        base = RE.md.get("scan_id")
+        base = RE.md.get("scan_id", ABSENT)
         state["opened"] = 0
 
         def sid():
             if state["opened"] == 0:
                 return base
-            return (base or 0) + state["opened"]
+            return (0 if base is ABSENT else base) + state["opened"]
         for i, run in enumerate(case["runs"]):
             msg_md = _values(model, "msg", run["md"], tag="" if i == 0 else str(i + 1))
             m = Msg("open_run", run=run["run"], **msg_md)
@@ -124,7 +125,7 @@ def scenario(model, info, art):
             n0, nv, nn = len(docs), len(vseen), len(nseen)
             refused_by = "open" if run["run"] in case.get("pre_open", []) else "validator" if state["vmode"] == "reject" else \
                 "normalizer" if state["nmode"] == "raise" else None
-            shown = merged(pre["md"], "generator", "my_plan", pre["msg"], pre["call"], (base or 0) + state["opened"] + 1)
+            shown = merged(pre["md"], "generator", "my_plan", pre["msg"], pre["call"], (0 if base is ABSENT else base) + state["opened"] + 1)
             try:
                 uid = yield m
                 outcome = ("ok", uid)
@@ -144,14 +145,14 @@ def scenario(model, info, art):
                     opened_uids.append(starts[0]["uid"])
                     if outcome[1] != starts[0]["uid"]:
                         problems["registered"].append(f"{tag}: open_run returned {outcome[1]!r}, RunStart uid {starts[0]['uid']!r}")
-                if RE.md.get("scan_id") != sid():
+                if RE.md.get("scan_id", ABSENT) != sid():
                     problems["scan_id"].append(f"{tag}: RE.md['scan_id'] is {RE.md.get('scan_id')!r}, expected {sid()!r}")
             else:
                 want_exc = IllegalMessageSequence if refused_by == "open" else ValueError
                 if outcome[0] != "raise" or not isinstance(outcome[1], want_exc) or new:
                     problems["refused"].append(f"{tag}: outcome {outcome!r}, documents {[nm for nm, d in new]}")
-                if RE.md.get("scan_id") != sid():
-                    problems["refused"].append(f"{tag}: refused by the {refused_by}, RE.md['scan_id'] {RE.md.get('scan_id')!r}, was {sid()!r}")
+                if RE.md.get("scan_id", ABSENT) != sid():
+                    problems["refused"].append(f"{tag}: refused by the {refused_by}, RE.md['scan_id'] {RE.md.get('scan_id', ABSENT)!r}, was {sid()!r}")
             # frame: the sources are as they were (RE.md: only scan_id)
             now = {"md": dict(RE.md), "call": dict(RE._metadata_per_call), "msg": dict(m.kwargs)}
             for which in ("md", "call", "msg"):
@@ -159,8 +160,8 @@ def scenario(model, info, art):
                 if which == "md":
                     a.pop("scan_id", None)
                     b.pop("scan_id", None)
-                    if ("scan_id" in now["md"]) != (sid() is not None) or now["md"].get("scan_id") != sid():
-                        problems["frame"].append(f"{tag}: RE.md['scan_id'] {now['md'].get('scan_id')!r}, expected {sid()!r}")
+                    if now["md"].get("scan_id", ABSENT) != sid():
+                        problems["frame"].append(f"{tag}: RE.md['scan_id'] {now['md'].get('scan_id', ABSENT)!r}, expected {sid()!r}")
                 if a != b:
                     problems["frame"].append(f"{tag}: source '{which}' changed from {b!r} to {a!r}")
             # shown: what the validator / normalizer saw
